@@ -201,8 +201,10 @@ def tf(fn):
         return "raised:" + code(e)
 
 
-def run_history(kind, body, ops, serial):
+def run_history(kind, body, pre, ops, serial):
     env = Env(kind, body, serial)
+    for _ in range(pre):             # requests made before the history starts
+        env.add_item()
     got = []
     for o in ops:
         op, b, i = o["o"], o["b"], o["i"]
@@ -277,7 +279,7 @@ def main():
     for k, c in enumerate(cases):
         ops = c["h"]
         try:
-            got = run_history(c["kind"], c["body"], ops, k)
+            got = run_history(c["kind"], c["body"], c.get("pre", 0), ops, k)
         except BaseException as e:
             out.append({"i": k, "got": "harness exception %s: %s" % (type(e).__name__, e), "diff": [0]})
             continue
